@@ -342,6 +342,10 @@ def check_eval_and_spider(ctx):
                 mod=TEN, node=fn, sig="eval", required="eval is the identity-on-arrays tensor functor")
     sf = m.func(TEN + ".Sum.eval")
     shape.match(ctx, "R09.2", TEN + ".Sum.eval", ret_expr(sf.body), "sum((term.eval(contractor=contractor) for term in self.terms))", {}, mod=TEN, node=sf, sig="sum-eval")
+    ba = m.func(TEN + ".Box.array")
+    ctx.analysed(TEN + ".Box.array")
+    shape.match(ctx, "R09.2", TEN + ".Box.array", ret_expr(ba.body), ["Tensor.np.array(self.data).reshape(self.dom @ self.cod or (1,))", "Tensor.np.array(self.data).reshape(tuple(self.dom @ self.cod) or (1,))"], {},
+                body=ba.body, mod=TEN, node=ba, sig="box-array", required="the data of a box as an array of shape dom @ cod (one entry for a scalar box)")
     sp = m.func(TEN + ".Spider.__init__")
     loop = next((s for s in sp.body if isinstance(s, ast.For)), None)
     ok = False
@@ -356,6 +360,52 @@ def check_eval_and_spider(ctx):
     shape.match(ctx, "R09.4", TEN + ".Spider.__init__:type", typ, "(dim ** n_legs_in, dim ** n_legs_out)", {}, mod=TEN, node=sp, sig="spider-type")
 
 
+def check_to_tn(ctx):
+    """R09.6: evaluation through a contractor: the network built by to_tn has the wiring of the diagram and the result is typed like the diagram"""
+    m = ctx.model
+    q = TEN + ".Diagram.eval"
+    fn = m.func(q)
+    rest = [s for s in fn.body if not (isinstance(s, ast.If) and ast.unparse(s.test) == "contractor is None") and not (isinstance(s, ast.Expr) and isinstance(s.value, ast.Constant))]
+    shape.match(ctx, "R09.6", q + ":contractor", ret_expr(rest), "Tensor(self.dom, self.cod, contractor(*self.to_tn()).tensor)", {}, body=rest, mod=TEN, node=fn, sig="contractor",
+                required="the contracted network as a tensor with the domain and codomain of the diagram")
+    q = TEN + ".Diagram.to_tn"
+    tn_ = m.func(q)
+    ctx.analysed(q)
+    body = [s for s in tn_.body if not isinstance(s, (ast.Import, ast.ImportFrom))]
+    shape.match_stmts(ctx, "R09.6", q + ":inputs", [s for s in body if isinstance(s, ast.Assign)],
+                      ["nodes = [tn.Node(Tensor.np.eye(dim), 'input_{}'.format(i)) for i, dim in enumerate(self.dom)]", "inputs = [n[0] for n in nodes]", "scan = [n[1] for n in nodes]"],
+                      mod=TEN, node=tn_, sig="tn-inputs", required="one identity node per input wire: its first edge is the input, its second the open wire")
+    loop = next((s for s in body if isinstance(s, ast.For)), None)
+    ctx.need(loop is not None and isinstance(loop.target, ast.Tuple) and len(loop.target.elts) == 2, "to_tn has no loop over boxes and offsets")
+    shape.match(ctx, "R09.6", q + ":loop", loop.iter, "zip(self.boxes, self.offsets)", {}, mod=TEN, node=loop, sig="tn-loop")
+    N = {loop.target.elts[0].id: "box", loop.target.elts[1].id: "offset"}
+    sw = next((s for s in loop.body if isinstance(s, ast.If)), None)
+    ctx.need(sw is not None, "to_tn: no swap branch")
+    shape.match(ctx, "R09.6", q + ":swap-test", sw.test, "isinstance(box, Swap)", N, mod=TEN, node=sw, sig="tn-swap-test")
+    shape.match_stmts(ctx, "R09.6", q + ":swap", sw.body, ["scan[offset], scan[offset + 1] = scan[offset + 1], scan[offset]", "continue"], N, mod=TEN, node=sw, sig="tn-swap", exact=True,
+                      required="a swap exchanges the two open wires at its offset and adds no node")
+    after = [s for s in loop.body if s is not sw]
+    conn = next((s for s in after if isinstance(s, ast.For)), None)
+    ctx.need(conn is not None, "to_tn: no loop connecting the inputs of the box")
+    flat = [s for s in after if s is not conn]
+    shape.match_stmts(ctx, "R09.6", q + ":box", flat,
+                      ["array = box.eval().array if box.is_dagger else box.array", "node = tn.Node(array, str(box))", "edges = [node[len(box.dom) + i] for i, _ in enumerate(box.cod)]",
+                       "scan = scan[:offset] + edges + scan[offset + len(box.dom):]", "nodes.append(node)"], N, mod=TEN, node=loop, sig="tn-box",
+                      required="a node per box (array read after the dagger flag), its output edges spliced over its inputs in the open wires")
+    iv = conn.target.elts[0].id if isinstance(conn.target, ast.Tuple) else conn.target.id if isinstance(conn.target, ast.Name) else None
+    N2 = dict(N)
+    N2[iv] = "i"
+    shape.match(ctx, "R09.6", q + ":connect-range", conn.iter, ["enumerate(box.dom)", "range(len(box.dom))"], N, mod=TEN, node=conn, sig="tn-connect-range")
+    shape.match_stmts(ctx, "R09.6", q + ":connect", conn.body, ["tn.connect(scan[offset + i], node[i])"], N2, mod=TEN, node=conn, sig="tn-connect", exact=True,
+                      required="the i-th input edge of the node is connected to the open wire at offset + i")
+    order = [s for s in after if isinstance(s, (ast.For, ast.Assign, ast.Expr))]
+    names_in_order = [shape.head(s) if not isinstance(s, ast.For) else "connect" for s in order]
+    pos = {h: k for k, h in enumerate(names_in_order)}
+    okord = pos.get("=node", 99) < pos.get("connect", -1) < pos.get("=scan", -1)
+    ctx.ob("R09.6", q + ":order", okord, found=names_in_order, required="the node is created, then connected to the open wires, and only then the open wires are replaced", mod=TEN, node=loop, sig="tn-order")
+    shape.match(ctx, "R09.6", q + ":result", ret_expr(body), "(nodes, inputs + scan)", {}, mod=TEN, node=tn_, sig="tn-result", required="all nodes; dangling edges ordered inputs first, then the open wires left to right")
+
+
 def check(ctx):
     ctx.rule("R09.1", "loop invariant of the contraction loop: array layout = [F(dom) | F(scan)]; box step and swap step preserve it; result is Tensor(F dom, F cod)")
     ctx.rule("R09.2", "dispatch order/totality and structural images (cups, caps, sums, bubbles, objects in order ignoring winding, lookup typed by the images)")
@@ -365,6 +415,8 @@ def check(ctx):
     n, flags = check_flag_discipline(ctx, TEN, "R09.3")
     ctx.notes.append("flag-daggered classes: %s" % sorted(k.q for k in flags))
     check_eval_and_spider(ctx)
+    ctx.rule("R09.6", "evaluation through a contractor: to_tn builds one identity node per input, one node per box wired at its offset, swaps exchange open wires; the result is typed by the diagram")
+    check_to_tn(ctx)
     ctx.rule("R09.5", "the operations the evaluation is built from (then, tensor, dagger, swap, cups, caps of Tensor) have the matrix layout they claim (C08)")
     ctx.depend("R09.5", "C08", "evaluation composes the images with Tensor.then / tensor / swap / cups / dagger: each must contract and order the axes as a matrix product / Kronecker product", mod="discopy.tensor")
     # the default function of a tensor bubble: logical negation as NUMBERS (booleans would add with `or` and contract with `and`)
